@@ -241,6 +241,10 @@ func genC15(t *rapid.T) c15Case {
 		"$result = (count(object.get($node, \"http://ex.org/v#p1\", [])) > 0)",
 		"vals = object.get($node, \"http://ex.org/v#note\", [])\n$result = (count(vals) == 0)",
 		"$result = (object.get($node, \"http://ex.org/v#e0\", null) != null)",
+		// operands that set the message themselves (several of them may end up in one rule body)
+		"$message = \"no p0\"\n$result = (count(object.get($node, \"http://ex.org/v#p0\", [])) > 0)",
+		"$message = \"no p1\"\n$result = (count(object.get($node, \"http://ex.org/v#p1\", [])) > 0)",
+		"$message = \"no note\"\n$result = (count(object.get($node, \"http://ex.org/v#note\", [])) > 0)",
 	}
 	if vals := ya.Get("validations"); vals != nil && rapid.Bool().Draw(t, "regoOperands") {
 		for _, v := range vals.Vals {
@@ -259,7 +263,7 @@ func genC15(t *rapid.T) c15Case {
 			if len(inner.Keys) > 0 {
 				ops = append(ops, inner)
 			}
-			for _, code := range subset(t, regoCodes, 2, 3, "regoCodes") {
+			for _, code := range subset(t, regoCodes, 2, 4, "regoCodes") {
 				ops = append(ops, m.YMap().Set("rego", m.YStr(code)))
 			}
 			outer.Set(pick(t, []string{"and", "or"}, "regoConnective"), m.YSeq(ops...))
